@@ -58,6 +58,8 @@ inductive Ev
   | doneOk (op : Nat) (rcs : List Nat) (props : Nat)   -- exchange completed without error with these codes / properties
   | doneOther (op : Nat)                       -- any other completion (error of an exchange; completion of another operation)
   | quiescent                                  -- cancel() / a finished async_disconnect, and the execution context has run out of work
+  | cancelAll                                  -- cancel() was called (also: a terminal cancellation signal of an exchange, a finished async_disconnect)
+  | restart                                    -- async_run() after that
   deriving Repr, DecidableEq, Inhabited
 
 inductive Phase
@@ -87,6 +89,7 @@ structure S where
   bodyOf : Nat → Option Nat := fun _ => none         -- bytes an operation's request was seen with (never forgotten)
   isDone : Nat → Bool := fun _ => false
   ops : List Nat := []                               -- every initiated operation
+  cancelled : Bool := false                          -- cancel() was called and async_run() has not been called again
   writing : Bool := false
   connected : Bool := false
   limit : Nat := 65535
@@ -244,7 +247,8 @@ def step (s : S) : Ev → Option S
       quota := if releases s a then s.quota + 1 else s.quota,
       slot := upd s.slot a.pid ((s.slot a.pid).map (Slot.onRx · a)) }
   | .doneOk op rcs props =>
-    if s.isDone op then none else
+    -- `cancel()` aborts every reply wait and every queued request: nothing completes successfully until the client runs again
+    if s.isDone op || s.cancelled then none else
     match s.pidOf op with
     | none => none
     | some p =>
@@ -263,6 +267,8 @@ def step (s : S) : Ev → Option S
       | some sl => if sl.op = op then some { s1 with slot := upd s.slot p none } else some s1
       | none => some s1
   | .quiescent => if s.ops.all s.isDone then some s else none
+  | .cancelAll => some { s with cancelled := true }
+  | .restart => some { s with cancelled := false }
 
 -- (the last case of `step`: nothing may be left outstanding when the client has been cancelled and the context has drained)
 def run (s : S) : List Ev → Option S
@@ -349,6 +355,10 @@ def pubsStep (st : Bool × List Nat) : Ev → Bool × List Nat
   | _ => st
 
 def pubsOf (tr : List Ev) : List Nat := (tr.foldl pubsStep (false, [])).2
+
+/-- has cancel() been called and async_run() not yet again (read off the events alone) -/
+def cancelledOf (tr : List Ev) : Bool :=
+  tr.foldl (fun b e => match e with | .cancelAll => true | .restart => false | _ => b) false
 
 /-- the list contains events satisfying the predicates, in this order (not necessarily adjacent) -/
 def Chain : List (Ev → Prop) → List Ev → Prop
